@@ -265,4 +265,108 @@ Section Payload.
     apply (dec_sound _ _ _ _ _ I) in H. apply bytes_eqb_spec in Ei. apply Z.eqb_eq in Ek.
     exists rs. repeat split; try assumption; apply H.
   Qed.
+
+  (* ---- C16_tamper, payload level, field by field: the genuine encoded payload with exactly one
+     of kind / key id / IV (session id or suffix) / content / common MAC replaced is rejected ---- *)
+  Theorem tamper_payload_gmac : forall fixed store h rs k id iv body cmac,
+    lookup h store = Some rs ->
+    is_gmac k = true -> length id = 4%nat -> length iv = 12%nat ->
+    km_id (select rs ScPayload) = id -> km_kind (select rs ScPayload) = k ->
+    cmac = mac (kdf false (km_key (select rs ScPayload)) (km_salt (select rs ScPayload)) (firstn 4 iv)) iv body ->
+    (forall k', is_gmac k' = true -> k' <> k ->
+       decode_payload mac dec kdf fixed store h (header k' id iv ++ body ++ footer cmac []) = None) /\
+    (forall id', length id' = 4%nat -> id' <> id ->
+       decode_payload mac dec kdf fixed store h (header k id' iv ++ body ++ footer cmac []) = None) /\
+    (forall iv', length iv' = 12%nat -> iv' <> iv ->
+       decode_payload mac dec kdf fixed store h (header k id iv' ++ body ++ footer cmac []) = None) /\
+    (forall body', body' <> body ->
+       decode_payload mac dec kdf fixed store h (header k id iv ++ body' ++ footer cmac []) = None) /\
+    (forall cmac', length cmac' = 16%nat -> cmac' <> cmac ->
+       decode_payload mac dec kdf fixed store h (header k id iv ++ body ++ footer cmac' []) = None).
+  Proof.
+    intros fixed store h rs k id iv body cmac Hl Hk Hid Hiv Eid Ekind Ec.
+    assert (Hc : length cmac = 16%nat) by (subst cmac; apply (mac_len _ _ _ _ _ I)).
+    assert (R : forall k' id' iv' body' cmac' p,
+      is_gmac k' = true -> length id' = 4%nat -> length iv' = 12%nat -> length cmac' = 16%nat ->
+      decode_payload mac dec kdf fixed store h (header k' id' iv' ++ body' ++ footer cmac' []) = Some p ->
+      id' = id /\ k' = k /\
+      cmac' = mac (kdf false (km_key (select rs ScPayload)) (km_salt (select rs ScPayload)) (firstn 4 iv')) iv' body').
+    { intros k' id' iv' body' cmac' p Hk' Hid' Hiv' Hc' H.
+      destruct (payload_accept_gmac _ _ _ _ _ _ _ _ _ Hk' Hid' Hiv' Hc' H) as [rs' [Hl' [Ei [Ek [_ Em]]]]].
+      rewrite Hl in Hl'. apply Some_inj in Hl'. subst rs'. repeat split; congruence. }
+    repeat split.
+    - intros k' Hk' Hn. destruct (decode_payload _ _ _ _ _ _ _) eqn:E; [|reflexivity].
+      apply R in E; try assumption. destruct E as [_ [E _]]. contradiction.
+    - intros id' Hid' Hn. destruct (decode_payload _ _ _ _ _ _ _) eqn:E; [|reflexivity].
+      apply R in E; try assumption. destruct E as [E _]. contradiction.
+    - intros iv' Hiv' Hn. destruct (decode_payload _ _ _ _ _ _ _) eqn:E; [|reflexivity].
+      apply R in E; try assumption. destruct E as [_ [_ E]]. rewrite Ec in E.
+      apply (mac_inj _ _ _ _ _ I) in E. destruct E as [_ [E _]]. congruence.
+    - intros body' Hn. destruct (decode_payload _ _ _ _ _ _ _) eqn:E; [|reflexivity].
+      apply R in E; try assumption. destruct E as [_ [_ E]]. rewrite Ec in E.
+      apply (mac_inj _ _ _ _ _ I) in E. destruct E as [_ [_ E]]. congruence.
+    - intros cmac' Hc' Hn. destruct (decode_payload _ _ _ _ _ _ _) eqn:E; [|reflexivity].
+      apply R in E; try assumption. destruct E as [_ [_ E]]. congruence.
+  Qed.
+
+  Theorem tamper_payload_gcm : forall store h rs k id iv plain c cmac padding,
+    lookup h store = Some rs ->
+    is_gcm k = true -> length id = 4%nat -> length iv = 12%nat ->
+    (length padding < 4)%nat -> all_zero padding = true ->
+    km_id (select rs ScPayload) = id -> km_kind (select rs ScPayload) = k ->
+    let sk := kdf false (km_key (select rs ScPayload)) (km_salt (select rs ScPayload)) (firstn 4 iv) in
+    c = enc sk iv plain -> cmac = gtag sk iv plain ->
+    (forall k', is_gcm k' = true -> k' <> k ->
+       decode_payload mac dec kdf true store h (header k' id iv ++ content c ++ footer cmac [] ++ padding) = None) /\
+    (forall id', length id' = 4%nat -> id' <> id ->
+       decode_payload mac dec kdf true store h (header k id' iv ++ content c ++ footer cmac [] ++ padding) = None) /\
+    (forall iv', length iv' = 12%nat -> iv' <> iv ->
+       decode_payload mac dec kdf true store h (header k id iv' ++ content c ++ footer cmac [] ++ padding) = None) /\
+    (forall c', c' <> c ->
+       decode_payload mac dec kdf true store h (header k id iv ++ content c' ++ footer cmac [] ++ padding) = None) /\
+    (forall cmac', length cmac' = 16%nat -> cmac' <> cmac ->
+       decode_payload mac dec kdf true store h (header k id iv ++ content c ++ footer cmac' [] ++ padding) = None).
+  Proof.
+    intros store h rs k id iv plain c cmac padding Hl Hk Hid Hiv Hp Hz Eid Ekind sk Ec Em.
+    assert (Hc : length cmac = 16%nat) by (subst cmac; apply (gtag_len _ _ _ _ _ I)).
+    assert (R : forall k' id' iv' c' cmac' p,
+      is_gcm k' = true -> length id' = 4%nat -> length iv' = 12%nat -> length cmac' = 16%nat ->
+      decode_payload mac dec kdf true store h (header k' id' iv' ++ content c' ++ footer cmac' [] ++ padding) = Some p ->
+      id' = id /\ k' = k /\
+      let sk' := kdf false (km_key (select rs ScPayload)) (km_salt (select rs ScPayload)) (firstn 4 iv') in
+      c' = enc sk' iv' p /\ cmac' = gtag sk' iv' p).
+    { intros k' id' iv' c' cmac' p Hk' Hid' Hiv' Hc' H.
+      destruct (payload_accept_gcm _ _ _ _ _ _ _ _ _ Hk' Hid' Hiv' Hc' Hp Hz H) as [rs' [Hl' [Ei [Ek Ex]]]].
+      rewrite Hl in Hl'. apply Some_inj in Hl'. subst rs'. cbn zeta in Ex. repeat split; try congruence; apply Ex. }
+    repeat split.
+    - intros k' Hk' Hn. destruct (decode_payload _ _ _ _ _ _ _) eqn:E; [|reflexivity].
+      apply R in E; try assumption. destruct E as [_ [E _]]. contradiction.
+    - intros id' Hid' Hn. destruct (decode_payload _ _ _ _ _ _ _) eqn:E; [|reflexivity].
+      apply R in E; try assumption. destruct E as [E _]. contradiction.
+    - intros iv' Hiv' Hn. destruct (decode_payload _ _ _ _ _ _ _) eqn:E; [|reflexivity].
+      apply R in E; try assumption. destruct E as [_ [_ [_ E]]]. rewrite Em in E.
+      apply (gtag_inj _ _ _ _ _ I) in E. destruct E as [_ [E _]]. congruence.
+    - intros c' Hn. destruct (decode_payload _ _ _ _ _ _ _) eqn:E; [|reflexivity].
+      apply R in E; try assumption. destruct E as [_ [_ [E1 E2]]]. fold sk in E1, E2. rewrite Em in E2.
+      apply (gtag_inj _ _ _ _ _ I) in E2. destruct E2 as [_ [_ E2]]. subst. contradiction.
+    - intros cmac' Hc' Hn. destruct (decode_payload _ _ _ _ _ _ _) eqn:E; [|reflexivity].
+      apply R in E; try assumption. destruct E as [_ [_ [E1 E2]]]. fold sk in E1, E2. rewrite Ec in E1.
+      apply (enc_inj _ _ _ _ _ I) in E1. subst. contradiction.
+  Qed.
+
+  (* ---- C16_wrong_key, payload level: a receiver whose registered master key or salt differs from
+     the sender's (same key id and kind) rejects the genuine encoded payload ---- *)
+  Theorem wrong_key_payload : forall fixed store h rs k id iv body key salt,
+    lookup h store = Some rs -> is_gmac k = true -> length id = 4%nat -> length iv = 12%nat ->
+    (km_key (select rs ScPayload) <> key \/ km_salt (select rs ScPayload) <> salt) ->
+    decode_payload mac dec kdf fixed store h
+      (header k id iv ++ body ++ footer (mac (kdf false key salt (firstn 4 iv)) iv body) []) = None.
+  Proof.
+    intros fixed store h rs k id iv body key salt Hl Hk Hid Hiv Hd.
+    destruct (decode_payload _ _ _ _ _ _ _) eqn:E; [|reflexivity].
+    apply payload_accept_gmac in E; try assumption; try apply (mac_len _ _ _ _ _ I).
+    destruct E as [rs' [Hl' [_ [_ [_ Em]]]]]. rewrite Hl in Hl'. apply Some_inj in Hl'. subst rs'.
+    apply (mac_inj _ _ _ _ _ I) in Em. destruct Em as [Ek _].
+    apply (kdf_inj _ _ _ _ _ I) in Ek. destruct Ek as [_ [E1 [E2 _]]]. destruct Hd; congruence.
+  Qed.
 End Payload.
